@@ -104,7 +104,7 @@ class SSCChart(BaseChart):
                 self[key] = ":".join(param.components[1:])
             else:
                 self[key] = param.value
-            if param.value is self.notes:
+            if key in ("NOTES", "NOTES2"):
                 break
 
     def serialize(self, file):
